@@ -338,8 +338,16 @@ let sqlhist () : unit =
     let ((b', r), tr) = run_rows big_fuel no_faults None !b p in
     b := b'; (r, tr) in
   let unordered = ref false in
+  let opno = ref 0 in
+  let last_write = ref 0 in
+  let ro_conn i = (match Stdlib.List.assoc_opt i !cs with
+                   | Some sc -> (match sc.sc_tb with Some tb -> tb.tb_ro | None -> false)
+                   | None -> false) in
+  let last_muts = ref 0 in
   let run_stmt i (p : (row, sconn * outcome_t) prog) =
+    last_write := !opno;
     let (r, tr) = exec p in
+    last_muts := Stdlib.List.length (Stdlib.List.filter (fun (rq, ok) -> ok && (match rq with RPut _ | RDel _ -> true | _ -> false)) tr);
     (match r with
      | Done (sc', o) -> setc i sc'; pr_outcome o
      | _ -> pr "err");
@@ -352,28 +360,31 @@ let sqlhist () : unit =
   let set_pending i l = pending := (i, l) :: Stdlib.List.remove_assoc i !pending in
   let record i (e : ev) =
     if (getc i).sc_explicit then set_pending i (get_pending i @ [e]) else accepted := !accepted @ [e] in
-  let stmt_t i = match (getc i).sc_conn.c_wt with Some t -> t | None -> sql_now in
+  let tick = ref 0 in
+  let now () = Z.add sql_now (z_of_small !tick) in
+  let stmt_t i = match (getc i).sc_conn.c_wt with Some t -> t | None -> now () in
   let last_sel = ref (-1) in
-  let opno = ref 0 in
   let nops = rd_int () in
   for _ = 1 to nops do
-    pr ";"; incr opno;
-    match next () with
+    pr ";"; incr opno; incr tick;
+    let cur = ref (-1) in
+    last_muts := 0;
+    (match next () with
     | "conn" -> let i = rd_int () in setc i sconn0; pr "ok"
     | "create" ->
-        let i = rd_int () in let ro = rd_bool () in
+        let i = rd_int () in cur := i; let ro = rd_bool () in
         let order = rd_vnames () in let corder = rd_vnames () in
-        run_stmt i (sql_create cfg sql_now (getc i) ro (nat_of_int ncols) order corder)
+        run_stmt i (sql_create cfg (now ()) (getc i) ro (nat_of_int ncols) order corder)
     | "wt" ->
-        let i = rd_int () in let t = rd_z () in
+        let i = rd_int () in cur := i; let t = rd_z () in
         setc i (sql_set_write_time (getc i) (if t = Z0 then None else Some (nanos_of_sec t))); pr "ok"
     | "ins" ->
-        let i = rd_int () in let k = rd_sval () in let vals = rd_list rd_sval in
+        let i = rd_int () in cur := i; let k = rd_sval () in let vals = rd_list rd_sval in
         let corder = rd_vnames () in
         let t = stmt_t i in
         let was_explicit = (getc i).sc_explicit in
         let before = !cs in
-        run_stmt i (sql_insert cfg sql_now (getc i) corder k vals);
+        run_stmt i (sql_insert cfg (now ()) (getc i) corder k vals);
         ignore before;
         (* accepted iff the statement succeeded: detect through the printed outcome *)
         if Buffer.length out > 0 then begin
@@ -385,13 +396,13 @@ let sqlhist () : unit =
           end
         end
     | "upd" ->
-        let i = rd_int () in let k = rd_sval () in
+        let i = rd_int () in cur := i; let k = rd_sval () in
         let assign = rd_list (fun () -> rd_opt rd_sval) in
         let corder = rd_vnames () in
         let t = stmt_t i in
         let was_explicit = (getc i).sc_explicit in
         let hit = (match (getc i).sc_tb with Some tb -> find_rows tb k <> [] | None -> false) in
-        run_stmt i (sql_update cfg sql_now (getc i) corder k assign);
+        run_stmt i (sql_update cfg (now ()) (getc i) corder k assign);
         let txt = Buffer.contents out in
         let seg = Stdlib.List.nth (Stdlib.List.rev (String.split_on_char ';' txt)) 0 in
         if hit && String.length seg >= 3 && String.sub seg 0 3 = " ok" then begin
@@ -399,11 +410,11 @@ let sqlhist () : unit =
           if was_explicit then set_pending i (get_pending i @ [e]) else accepted := !accepted @ [e]
         end
     | "del" ->
-        let i = rd_int () in let k = rd_sval () in let corder = rd_vnames () in
+        let i = rd_int () in cur := i; let k = rd_sval () in let corder = rd_vnames () in
         let t = stmt_t i in
         let was_explicit = (getc i).sc_explicit in
         let hit = (match (getc i).sc_tb with Some tb -> find_rows tb k <> [] | None -> false) in
-        run_stmt i (sql_delete cfg sql_now (getc i) corder k);
+        run_stmt i (sql_delete cfg (now ()) (getc i) corder k);
         let txt = Buffer.contents out in
         let seg = Stdlib.List.nth (Stdlib.List.rev (String.split_on_char ';' txt)) 0 in
         if hit && String.length seg >= 3 && String.sub seg 0 3 = " ok" then begin
@@ -411,7 +422,7 @@ let sqlhist () : unit =
           if was_explicit then set_pending i (get_pending i @ [e]) else accepted := !accepted @ [e]
         end
     | "sel" ->
-        let i = rd_int () in let desc = rd_bool () in
+        let i = rd_int () in cur := i; let desc = rd_bool () in
         let cons = rd_list (fun () -> let o = rd_cop () in let v = rd_sval () in (o, v)) in
         let limit = rd_int () in
         if cons = [] && limit = 0 && not desc then last_sel := !opno;
@@ -422,44 +433,48 @@ let sqlhist () : unit =
              pr "ok";
              pr_list (fun (k, vs) -> pr_sval k; Stdlib.List.iter pr_sval vs) rows)
     | "begin" ->
-        let i = rd_int () in let _ = rd_vnames () in
+        let i = rd_int () in cur := i; let _ = rd_vnames () in
         let (sc', o) = sql_begin (getc i) in setc i sc'; pr_outcome o; pr "M"; pr "["; pr "]"
     | "commit" ->
-        let i = rd_int () in let corder = rd_vnames () in
+        let i = rd_int () in cur := i; let corder = rd_vnames () in
         run_stmt i (sql_commit (getc i) corder);
         let txt = Buffer.contents out in
         let seg = Stdlib.List.nth (Stdlib.List.rev (String.split_on_char ';' txt)) 0 in
         if String.length seg >= 3 && String.sub seg 0 3 = " ok" then accepted := !accepted @ get_pending i;
         set_pending i []
     | "rollback" ->
-        let i = rd_int () in let _ = rd_vnames () in
+        let i = rd_int () in cur := i; let _ = rd_vnames () in
         let (sc', o) = sql_rollback (getc i) in setc i sc'; pr_outcome o; pr "M"; pr "["; pr "]";
         set_pending i []
     | "refresh" ->
-        let i = rd_int () in let order = rd_vnames () in let corder = rd_vnames () in
-        run_stmt i (sql_refresh cfg sql_now (getc i) order corder)
+        let i = rd_int () in cur := i; let order = rd_vnames () in let corder = rd_vnames () in
+        run_stmt i (sql_refresh cfg (now ()) (getc i) order corder)
     | "version" ->
-        let i = rd_int () in
+        let i = rd_int () in cur := i;
         (match sql_version (getc i) with
          | None -> pr "err"
          | Some l -> pr "ok"; pr "{"; pr_list pr_vname l; pr "}")
     | "vacuum" ->
-        let i = rd_int () in let before = rd_z () in let corder = rd_vnames () in
+        let i = rd_int () in cur := i; let before = rd_z () in let corder = rd_vnames () in
+        let forder0 = rd_vnames () in
         let forder = rd_vnames () in
         let sel_all sc =
           (match sql_select sc false [] O with
            | None -> pr "panic"
            | Some rows -> pr "ok"; pr_list (fun (k, vs) -> pr_sval k; Stdlib.List.iter pr_sval vs) rows) in
         let sc_before = getc i in
+        let fresh order =
+          (let ((_, r), _) = run_rows big_fuel no_faults None !b (sql_create cfg (now ()) sconn0 true (nat_of_int ncols) order []) in
+           match r with
+           | Done (scf, _) -> Some scf
+           | _ -> None) in
+        let f0 = fresh forder0 in
         unordered := true;
         run_stmt i (sql_vacuum cfg (getc i) corder (nanos_of_sec before));
         pr "VB"; sel_all sc_before;
         pr "VA"; sel_all (getc i);
-        pr "VF";
-        (let ((_, r), _) = run_rows big_fuel no_faults None !b (sql_create cfg sql_now sconn0 true (nat_of_int ncols) forder []) in
-         match r with
-         | Done (scf, _) -> sel_all scf
-         | _ -> pr "err");
+        pr "VF0"; (match f0 with Some scf -> sel_all scf | None -> pr "err");
+        pr "VF"; (match fresh forder with Some scf -> sel_all scf | None -> pr "err");
         (* reachability: every version object's node exists *)
         pr "RW";
         (let vers = !b.b_cur @ !b.b_merged in
@@ -470,11 +485,39 @@ let sqlhist () : unit =
                         | None -> false)
            | _ -> true) vers in
          if missing = [] then pr "ok" else pr ("missing:" ^ string_of_int (Stdlib.List.length missing)))
-    | s -> failwith ("unknown_sql_op_" ^ s)
+    | "rdconn" ->
+        let i = rd_int () in cur := i;
+        let c = (getc i).sc_conn in
+        pr "ok";
+        let show = function
+          | None -> pr "N"
+          | Some t -> if Z.compare t sql_now <> Lt && Z.compare t (Z.add sql_now (z_of_small 1000000)) = Lt then pr "A"
+                      else pr_z (Z.div t (z_of_string "1000000000")) in
+        show c.c_deadline; show c.c_wt
+    | "dl" ->
+        let i = rd_int () in cur := i; let t = rd_z () in
+        setc i (sql_set_deadline (getc i) (if t = Z0 then None else Some (nanos_of_sec t))); pr "ok"
+    | "changes" ->
+        let i = rd_int () in cur := i;
+        let from = rd_vnames () in let to_ = rd_vnames () in
+        let (r, _) = exec (sql_changes cfg (now ()) (getc i) from to_) in
+        (match r with
+         | Done (Some rows) -> pr "ok"; pr_list (fun (k, vs) -> pr_sval k; Stdlib.List.iter pr_sval vs) rows
+         | _ -> pr "qerr")   (* the versions are opened when the query runs *)
+    | s -> failwith ("unknown_sql_op_" ^ s));
+    if !cur >= 0 && ro_conn !cur then pr ("RO:" ^ string_of_int !last_muts)
   done;
   (* specification view of the last unconstrained ascending SELECT: the documented rule
      applied to the set of accepted statements *)
-  if !last_sel > 0 then begin
+  (* the documented rule is stated for distinct write times per key (or identical retries) *)
+  let distinct =
+    let rec chk = function
+      | [] -> true
+      | e :: rest ->
+          Stdlib.List.for_all (fun e2 ->
+            not (order_t e.e_key e2.e_key = Eq && e.e_t = e2.e_t) || e = e2) rest && chk rest in
+    chk !accepted in
+  if !last_sel > !last_write && distinct then begin
     pr "|";
     let rows = interp (nat_of_int ncols) !accepted in
     let b2 = Buffer.create 256 in
